@@ -8,6 +8,7 @@ pub struct Cfg {
     pub seed: u64,
     pub thorough: bool,
     pub only: Option<usize>,
+    pub from: usize,
     pub scale: usize,
 }
 
@@ -79,6 +80,7 @@ pub fn run(reg: &[Box<dyn TypeOps>], cfg: &Cfg, out: &mut dyn Write) {
     let mut ar2 = Arena::new(1);
     for (tid, t) in reg.iter().enumerate() {
         if let Some(o) = cfg.only { if o != tid { continue; } }
+        if tid < cfg.from { continue; }
         let sh = parse(t.desc());
         let mut rng = Rng::new(cfg.seed ^ ((tid as u64 + 1) * 0x1000193));
         let al = t.align();
